@@ -19,6 +19,8 @@ pub mod s_sqlx;
 pub mod s_quote;
 pub mod s_determ;
 pub mod s_dialect;
+pub mod s_total;
+pub mod s_arith;
 
 use common::*;
 use std::io::{BufRead, Write};
@@ -46,6 +48,8 @@ fn streams() -> Vec<(&'static str, GenFn, EvalFn)> {
         ("determ", s_determ::gen, s_determ::eval),
         ("namer", s_determ::gen_namer, s_determ::eval_namer),
         ("dialect", s_dialect::gen, s_dialect::eval),
+        ("total", s_total::gen, s_total::eval),
+        ("arith", s_arith::gen, s_arith::eval),
         ("c09", s_exec::gen_c09, s_exec::eval_c09),
         ("c01", s_exec::gen_c01, s_exec::eval_c01),
         ("clip", s_exec::gen_clip, s_exec::eval_clip),
